@@ -50,7 +50,8 @@ package main
 // Signatures: <law>:<kind[class]>,<kind[class]>:<observed pattern>; the class of a
 // number is its magnitude band (0, -0, <1e6, <2^53, >=2^53, inexact = int64 not
 // representable as float64, frac, inf, nan), of a string its spelling (int,
-// frac, exp, goparse, nonnum).
+// frac, exp, goparse, nonnum; long-frac, long-exp, long-int beyond 100 characters).
+// Phases long and again: see c06_r5.go.
 
 import (
 	"fmt"
@@ -314,13 +315,17 @@ func c06GoParses(s string) bool {
 
 func c06Spelling(s string) string {
 	if c06NumeralRe.MatchString(s) {
+		long := ""
+		if len(s) > 100 {
+			long = "long-" // numerals of more than 100 characters (phase long): a class of their own
+		}
 		switch {
 		case strings.Contains(s, "e"):
-			return "exp"
+			return long + "exp"
 		case strings.Contains(s, "."):
-			return "frac"
+			return long + "frac"
 		}
-		return "int"
+		return long + "int"
 	}
 	if c06GoParses(s) {
 		return "goparse"
@@ -329,19 +334,41 @@ func c06Spelling(s string) string {
 }
 
 // exact rational value of a decimal numeral; ok=false when the exponent is too
-// large to be worth expanding (such numerals are left unspecified).
+// large to be worth expanding (such numerals are left unspecified). Numerals of
+// up to 40000 characters and exponents up to +-20000 are expanded exactly.
 func c06NumeralRat(s string) (*big.Rat, bool) {
 	if j := strings.IndexByte(s, 'e'); j >= 0 {
 		ex, err := strconv.Atoi(s[j+1:])
-		if err != nil || ex > 2000 || ex < -2000 {
+		if err != nil || ex > 20000 || ex < -20000 {
 			return nil, false
 		}
 	}
-	if len(s) > 400 {
+	if len(s) > 40000 {
 		return nil, false
 	}
 	r, ok := new(big.Rat).SetString(s)
 	return r, ok
+}
+
+// c06PendingFix_float800: a float64 against a numeral whose mantissa has more than
+// 800 digits before the point / exponent (leading zeros not counted), e.g.
+// "1" + 1000 zeros + "e-1000" == 1.0: mattn/anko answers false although the numeral
+// denotes 1 (and answers true for the int64 1): vm/vmToX.go tryToFloat64 parses with
+// strconv.ParseFloat, which keeps 800 digits and does not count the integer digits
+// behind them (the value comes out as 1e-201). Reported in
+// /tmp/strengthen/C06-r5-genuine.md; until /repo is repaired the reference rule is not
+// applied to exactly this class (the laws sym/neg/in/switch/prov still are). Flip to
+// false after the repair: the reference is then the correctly rounded exact value.
+const c06PendingFix_float800 = false
+
+// more than 800 significant digits in front of the point or exponent
+func c06Over800IntDigits(s string) bool {
+	t := strings.TrimLeft(strings.TrimPrefix(s, "-"), "0")
+	n := 0
+	for n < len(t) && t[n] >= '0' && t[n] <= '9' {
+		n++
+	}
+	return n > 800
 }
 
 // "the string is a decimal numeral denoting that number".
@@ -358,6 +385,16 @@ func c06StrNum(s string, n c06V) c06Tri {
 		return c06Unspec
 	}
 	pf, perr := strconv.ParseFloat(s, 64)
+	over800 := c06Over800IntDigits(s)
+	if over800 {
+		// strconv keeps 800 digits and stops counting the integer digits behind them:
+		// the correctly rounded value comes from the exact rational instead
+		pf, _ = r.Float64()
+		perr = nil
+		if math.IsInf(pf, 0) {
+			perr = strconv.ErrRange
+		}
+	}
 	if n.k == 'i' {
 		exactEq := r.Cmp(new(big.Rat).SetInt64(n.i)) == 0
 		if c06IntSpelledRe.MatchString(s) || exactEq {
@@ -369,6 +406,9 @@ func c06StrNum(s string, n c06V) c06Tri {
 		return c06False // a numeral with a non-zero fraction denotes no integer, however small the fraction
 	}
 	// float
+	if over800 && c06PendingFix_float800 {
+		return c06Unspec // see c06PendingFix_float800: laws only for now
+	}
 	switch {
 	case math.IsNaN(n.f):
 		return c06False // no numeral denotes NaN
@@ -1341,9 +1381,9 @@ func init() {
 	wk.Register(&wk.Engine{
 		ID: "C06",
 		Plan: func(tier string) fw.Plan {
-			nRand, nConc := 400, 12
+			nRand, nConc, nLong, nAgain := 400, 12, 30, 56
 			if tier == "thorough" {
-				nRand, nConc = 25000, 300
+				nRand, nConc, nLong, nAgain = 25000, 300, 1500, 3000
 			}
 			return fw.Plan{
 				Level: "exploration",
@@ -1358,18 +1398,32 @@ func init() {
 					"Each rand case also takes 6 random view pairs of random arrays and one wide switch per pair. "+
 					"phase conc: 4 or 8 goroutines, each with its own environment and 3 pairs (its own integer vs an exact fraction/exponent numeral of it, vs the numeral of another goroutine's integer, and a random pair), "+
 					"count the outcomes of ==, both orders, !=, in, switch and a 4-value switch over 1500 iterations in one vm.Execute or 30 short ones; every count must be iterations x the outcome observed sequentially beforehand (no timing in the verdict). "+
-					"Every evaluation is one vm.Execute whose boolean enters an algebraic law or a reference rule of the statement (non-trivial); distinct = distinct (source, bound values).", n*n, n, nViews),
+					"phase long: first %d enumerated cases = %d integers (0, +-1, +-2, 7, 999999, +-10^6, 2^53+1, MaxInt64, MinInt64) x %d lengths L from 40 to 3000 characters x %d spellings "+
+					"(exact / 10^-L above / 10^-L below the integer as a fraction, with the zeros moved into a negative exponent, shifted behind '0.000' with a positive exponent, in scientific form, "+
+					"one digit changed deep in the fraction, a half, L leading zeros), as literals and host variables in both operand orders (every 11th pair with the full set of observations), "+
+					"the float64 of the integer against a third of them; then PRNG cases of 12 pairs (random int64, log-uniform L in 30..8000, random spelling, random provenance). Reference: exact math/big.Rat value of the numeral as written. "+
+					"phase again: 8 scenarios per case; one `in` expression, one ==/!= per element and one switch are evaluated 3..7 times from the same syntax nodes "+
+					"(C-style loop body, for-in body, functions called once per round, one parsed tree run once per round with new bindings) while the operand values change per round; "+
+					"the varying operand (v, vs[i], m.k, g(), (v), a parameter) sits in the list of `in` / the case list as a direct element, inside nested list literals or as the VALUE of nested map literals "+
+					"(%d fixed wrappers x 4 drivers all met over the first 56 case indices, plus random wrappers; also as the KEY of a map literal, with string values), next to 0..2 constant elements, or in the subject against an all-constant list; "+
+					"subjects per round are the wrapped value of this round, of the first round, of the previous round, near misses, constants. Per round: in = switch = OR(== of that round), != negates ==, == follows the statement's rule. "+
+					"Every evaluation is one vm.Execute whose boolean enters an algebraic law or a reference rule of the statement (non-trivial); distinct = distinct (source, bound values).", n*n, n, nViews,
+					c06LongEnumCases(), len(c06LongInts), len(c06LongLens), len(c06LongKinds), len(c06FixedWraps)),
 				Assumptions: []string{
 					"Go's ==, strconv.ParseFloat and math/big are the reference for 'same primitive type', 'denotes that number' and exact arithmetic",
 					"the int/float rule is judged against anko's own observed <= and >= as the statement prescribes; exact-math disagreement is only counted",
 					"bool vs non-bool, strconv-only spellings (0x10, inf, +5, 1_0, .5, 1E6), numerals equal only after float64 rounding, cross-type container leaves and NaN leaves are unspecified: laws only",
 					"views of one backing array are judged as the values they hold (structural rule); with NaN or cross-type leaves only the laws are checked, so the identity shortcut for a container compared with an alias of itself is accepted",
 					"equality is a relation on values, so an outcome may not depend on what other goroutines compare at the same time; the concurrent phase can only refute this when the scheduler interleaves the runs (best effort, no wall-clock verdict)",
+					"a numeral with a non-zero fraction, however long, denotes no integer; an int64 equals a long numeral exactly when math/big.Rat says the numeral's value is that integer (numerals up to 40000 characters, exponents up to +-20000; beyond: laws only); for float64 the existing reading stays (exact, or equal after strconv's correct rounding)",
+					"equality, membership and switch matching are relations on the values the operands have at the moment of the evaluation: evaluating the same expression again after its operands changed must answer for the new values (vm.Run of one parsed tree several times is a supported use of the API)",
 				},
 				Phases: []fw.Phase{
 					{Name: "enum", Cases: n + 1 + nViews, Chunk: 6, Exhaust: true, TimeoutS: 600},
 					{Name: "rand", Cases: nRand, Chunk: 50, TimeoutS: 900},
 					{Name: "conc", Cases: nConc, Chunk: 2, Jobs: 3, TimeoutS: 900},
+					{Name: "long", Cases: c06LongEnumCases() + nLong, Chunk: 6, Jobs: 4, TimeoutS: 900, MemMB: 3072},
+					{Name: "again", Cases: nAgain, Chunk: 16, Jobs: 4, TimeoutS: 900, MemMB: 3072},
 				},
 			}
 		},
@@ -1378,6 +1432,18 @@ func init() {
 			r := &c06Run{c: c, reported: map[string]bool{}}
 			if c.Phase == "conc" {
 				c06Conc(c, pool)
+				return
+			}
+			if c.Phase == "long" {
+				if c.Index < c06LongEnumCases() {
+					r.longEnum(base, c.Index)
+				} else {
+					r.longRand(base)
+				}
+				return
+			}
+			if c.Phase == "again" {
+				r.againCase(base)
 				return
 			}
 			if c.Phase == "enum" {
